@@ -108,8 +108,6 @@ def main():
         'notes': 'All checks: ./check <ID> [--tier quick|thorough] [--replay file]; evidence/<ID>.json rewritten per run; '
                  'known_findings.txt lists open findings (suppressed by exact signature) and fixed ones (suppress nothing).',
     }
-    if not na:
-        del man['not_applicable']
     with open(os.path.join(HERE, 'MANIFEST.json'), 'w') as fh:
         json.dump(man, fh, indent=1)
     print('checks:', [c['property_id'] for c in checks], 'not built:', [n['property_id'] for n in na])
